@@ -74,6 +74,14 @@ StreamGStep(r, n) == StreamG(r[2], n, r[1])
 StreamG(zs, n, acc) == IF n = 0 THEN <<acc, zs>> ELSE IF n <= 64 THEN StreamC(zs, n, acc) ELSE StreamGStep(StreamC(zs, 64, acc), n - 64)
 Request(zs, n) == StreamG(zs, n, <<>>)
 KeyStream(key, iv, n) == Request(Start(key, iv), n)[1]
+\* ---- classification of a (key, IV) pair: does one of the six additions of the FIRST initialisation round have operands that sum to exactly
+\*      2^31-1, 2^31 or 2^31+1 (the boundary of the modular reduction)?  Random pairs do with probability 2^-29; the driver searches for them. ----
+BoundarySum(a, b) == b >= 1 /\ a >= M31 - b /\ a - (M31 - b) <= 2               \* a + b - (2^31 - 1) in 0..2, without leaving 32-bit integers
+Chain5(s) == << s[1], Rot31(s[1], 8), Rot31(s[5], 20), Rot31(s[11], 21), Rot31(s[14], 17), Rot31(s[16], 15) >>
+RECURSIVE ChainHits(_, _, _, _)
+ChainHits(terms, j, acc, u) == IF j > 6 THEN BoundarySum(acc, u)
+                               ELSE BoundarySum(acc, terms[j]) \/ ChainHits(terms, j + 1, Add31(acc, terms[j]), u)
+FirstRoundBoundary(key, iv) == LET z0 == Load(key, iv) IN ChainHits(Chain5(z0.s), 2, z0.s[1], W31(FW(z0)))
 \* ---- anchors: the three official test vectors ----
 Zero16 == [j \in 1..16 |-> 0]
 FF16 == [j \in 1..16 |-> 255]
